@@ -59,7 +59,7 @@ def sh(cmd, cwd=None, timeout=None, env=None, stdin=None):
 def run_verus_file(path, rlimit=None, timeout=900):
     cmd = ['bash', '-c',
            'ulimit -s unlimited 2>/dev/null; export RUST_MIN_STACK=1073741824; exec verus "$0" --output-json --time '
-           '--multiple-errors 10 --error-format=json' + (' --rlimit %s' % rlimit if rlimit else ''), path]
+           '--multiple-errors 10 --error-format=json --rlimit %s' % (rlimit or 40), path]
     rc, out, err, wall = sh(cmd, cwd=os.path.dirname(path), timeout=timeout)
     res = {'rc': rc, 'wall_s': round(wall, 2), 'diagnostics': [], 'functions': {}, 'raw_err': ''}
     if rc == 'timeout':
@@ -78,7 +78,14 @@ def run_verus_file(path, rlimit=None, timeout=900):
             except Exception:
                 continue
             if d.get('level') in ('error', 'warning') and d.get('spans'):
-                sp = [s for s in d['spans'] if s.get('is_primary')] or d['spans']
+                # only spans inside the generated file can be mapped back (a failed trait-level
+                # postcondition has its primary span inside vstd)
+                base = os.path.basename(path)
+                local = [s for s in d['spans'] if os.path.basename(s.get('file_name', '')) == base]
+                sp = [s for s in local if s.get('is_primary')] or local
+                if not sp:
+                    res['diagnostics'].append({'level': d['level'], 'message': d['message'], 'line': 0, 'text': '', 'rendered': d.get('rendered', '')})
+                    continue
                 res['diagnostics'].append({'level': d['level'], 'message': d['message'],
                                            'line': sp[0]['line_start'], 'text': (sp[0].get('text') or [{}])[0].get('text', '').strip(),
                                            'rendered': d.get('rendered', '')})
@@ -159,25 +166,52 @@ def verus_unit(unit, workdir):
         name = it['name'] if it else _enclosing_fn(g, d['line'])
         fails.setdefault(name, []).append({'message': d['message'], 'gen_line': d['line'], 'origin': list(org),
                                            'text': d['text'], 'rendered': d['rendered']})
-    # resource-limit failures are undecided, not violations
+    # resource-limit / solver-crash failures are undecided, never violations: drop them from the
+    # failure set and remember them
+    rl_fns = set()
     for name, fl in list(fails.items()):
-        if all('resource limit' in f['message'] or 'rlimit' in f['message'] for f in fl):
-            r['undecided'] = 'verus rlimit in %s' % name
+        if fl and all(re.search(r'resource limit|rlimit|solver|z3 (crash|exit)|timed? ?out', f['message'], flags=re.I) for f in fl):
+            r['undecided'] = 'verus resource limit / solver problem in %s: %s' % (name, fl[0]['message'][:120])
+            rl_fns.add(name)
+            del fails[name]
+    for dgn in res['diagnostics']:
+        if dgn['level'] == 'error' and re.search(r'resource limit|rlimit exceeded', dgn['message'], flags=re.I):
+            r['undecided'] = r['undecided'] or 'verus: %s' % dgn['message'][:160]
     fnres = res['functions']
     gen_fns = _all_fn_names(g)
-    for name in gen_fns:
-        short = name
-        fr = None
-        for k, v in fnres.items():
-            if k == short or k.endswith('::' + short):
-                fr = v
-                break
-        ok = (fr['success'] if fr else short not in fails)
-        ob = {'id': '%s/%s' % (unit, short), 'backend': 'verus', 'ok': bool(ok) and short not in fails,
-              'ms': fr['ms'] if fr else 0, 'kind': gen_fns[name]}
+    seen_short = set()
+    for full, fr in sorted(fnres.items()):
+        short = full.split('::')[-1]
+        if short not in gen_fns:
+            continue   # derived Clone impls, consts ...
+        seen_short.add(short)
+        okf = bool(fr['success']) and short not in fails
+        ob = {'id': '%s/%s' % (unit, short), 'backend': 'verus', 'ok': okf, 'ms': fr['ms'], 'kind': gen_fns[short], 'verus_name': full}
         r['obligations'].append(ob)
-        if not ob['ok']:
+        if not okf and (short in rl_fns or (r['undecided'] and short not in fails)):
+            # unsuccessful without a verdict we can point at (resource limit): undecided
+            ob['note'] = 'undecided (resource limit / no attributable verdict)'
+            r['undecided'] = r['undecided'] or 'verus: %s unsuccessful without an attributable verdict' % short
+            continue
+        if not okf and short not in fails:
+            # solver said "not verified" but no diagnostic maps into this function of the generated
+            # file (e.g. trait-level postcondition whose span is inside vstd): still a verdict
+            pass
+        if not okf:
             r['failures'].append({'obligation': ob['id'], 'function': short, 'details': fails.get(short, [])})
+    for short in gen_fns:
+        if short in seen_short:
+            continue
+        # no SMT query of its own (e.g. by(compute_only)): failed iff a diagnostic points into it
+        okf = short not in fails
+        ob = {'id': '%s/%s' % (unit, short), 'backend': 'verus', 'ok': okf, 'ms': 0, 'kind': gen_fns[short]}
+        r['obligations'].append(ob)
+        if not okf:
+            r['failures'].append({'obligation': ob['id'], 'function': short, 'details': fails.get(short, [])})
+    if res['status'] == 'failed' and not r['failures']:
+        # verus reported errors that could not be attributed to a function of the unit
+        r['undecided'] = r['undecided'] or 'verus reported %d error(s) not attributable to a function: %s' % (
+            res.get('errors', 0), '; '.join(d['message'] for d in res['diagnostics'][:3]))
     # failures not attributed to a known fn
     known = set(gen_fns)
     for name, fl in fails.items():
@@ -308,7 +342,10 @@ def kani_group(crate, harnesses, scratch, jobs, tier):
             '--harness-timeout', '%ds' % tmo, '--export-json', js_path]
     for h in harnesses:
         cmd += ['--harness', h['full']]
-    rc, out, err, wall = sh(cmd, cwd=cdir, timeout=tmo * max(1, (len(harnesses) + jobs - 1) // jobs) + 900)
+    # memory cap per process (a CBMC that exhausts memory becomes "CBMC failed" = undecided
+    # instead of taking the machine down)
+    capped = ['bash', '-c', 'ulimit -v %d; exec "$@"' % (int(os.environ.get('VERIF_KANI_MEM_GB', '20')) * 1024 * 1024), 'kani'] + cmd
+    rc, out, err, wall = sh(capped, cwd=cdir, timeout=tmo * max(1, (len(harnesses) + jobs - 1) // jobs) + 900)
     res = {'crate': crate, 'cmd': ' '.join(cmd), 'wall_s': round(wall, 1), 'rc': rc, 'harness': {}}
     tail = (out + '\n' + err)[-6000:]
     if rc == 'timeout':
@@ -362,7 +399,8 @@ def classify_kani(h, hr):
             undet.append(c)
     status = hr['status'].lower()
     err = hr.get('error') or {}
-    if 'timeout' in json.dumps(err).lower() or status in ('timeout', 'timedout'):
+    errtxt = ' '.join(str(err.get(k, '')) for k in ('error_type', 'exit_status', 'failed_properties_type')).lower()
+    if 'timeout' in errtxt or 'timed_out' in errtxt or status in ('timeout', 'timedout'):
         return 'undecided', obl, [], 'harness timeout'
     if h.get('expect') == 'fail':
         # negative control / must-fail twin
@@ -511,7 +549,11 @@ def main(argv):
                 # one cargo-kani invocation per (crate, flag set): flags change how the whole crate is compiled
                 by_crate.setdefault((h['crate'], tuple(sorted(h.get('flags', [])))), []).append(h)
             if by_crate:
-                copy_repo(os.path.join(scratch, 'repo'))
+                # private snapshot of the harness modules: a run is not disturbed by edits under
+                # /verif/kani/harness while it is in flight
+                hsnap = os.path.join(scratch, 'harness')
+                shutil.copytree(os.path.join(VERIF, 'kani', 'harness'), hsnap)
+                copy_repo(os.path.join(scratch, 'repo'), harness_dir=hsnap)
             ncr = max(1, len(by_crate))
             for (crate, _fl), hs in by_crate.items():
                 futures[ex.submit(kani_group, crate, hs, scratch, max(1, 14 // ncr), tier)] = ('kani', (crate, hs))
@@ -553,6 +595,15 @@ def main(argv):
             if r.get('vacuity') is not None:
                 samples.append({'unit': u['unit'], 'vacuity_twins_rejected': sum(1 for v in r['vacuity'] if v['ensures_false_rejected']),
                                 'of': len(r['vacuity'])})
+        # stubs used by the harnesses of this run are part of the trusted base
+        hnames = set(h['name'] for h in kani_hs)
+        hdir = os.path.join(VERIF, 'kani', 'harness')
+        for fn in sorted(os.listdir(hdir)):
+            txt = open(os.path.join(hdir, fn)).read()
+            for m in re.finditer(r'((?:#\[kani::[a-z_]+\([^\n]*\)\]\s*)+)fn ([A-Za-z0-9_]+)', txt):
+                if m.group(2) in hnames:
+                    for st in re.findall(r'#\[kani::stub\(([^\n]*)\)\]', m.group(1)):
+                        trusted.append('kani/%s: stub %s (harness %s)' % (fn, st, m.group(2)))
         for ((crate, hs), r) in results['kani']:
             if r.get('error'):
                 undecided.append('kani %s: %s' % (crate, r['error'][-800:]))
